@@ -717,7 +717,15 @@ class Machine:
     def _fork_values(self, s, fi, t, alts):
         """alts: [(value, atom, choice)] — continue once per alternative"""
         outs = []
+        # one answer per question and path: an opaque predicate / constructor that this path has already seen answered keeps
+        # that answer (uninterpreted calls are terms of their frozen arguments, i.e. treated as functions of them)
+        known = None
+        for a0, c0 in s.pc:
+            if alts and a0 == alts[0][1] and isinstance(a0, T) and a0[0] == "call":
+                known = c0
         for val, atom, choice in alts:
+            if known is not None and choice != known:
+                continue
             s2 = s.clone()
             s2.pc = s.pc + ((atom, choice),)
             self.write_place(s2, fi, t["dest"], val)
